@@ -12,13 +12,46 @@
 # See the License for the specific language governing permissions and
 # limitations under the License.
 import ast
-from typing import List, Tuple
+from typing import List, Tuple, get_args
 
 from sympy import Symbol
 from sympy.logic.boolalg import Boolean
 
 from ..types import TType, TypeErrorException
 from . import Binding, Env, decompose_to_symbols, exceptions, translate_expression
+
+
+def _flatten_exp(vexp) -> List[Boolean]:
+    """Flatten a (possibly nested) list of bit expressions"""
+    if isinstance(vexp, list):
+        res = []
+        for v in vexp:
+            res.extend(_flatten_exp(v))
+        return res
+    return [vexp]
+
+
+def _bit_names(ttype, base: str) -> List[str]:
+    """Return the bit names of a value of type ttype bound to the name base"""
+    if hasattr(ttype, "BIT_SIZE"):
+        return [f"{base}.{i}" for i in range(ttype.BIT_SIZE)]
+    elif len(get_args(ttype)) > 0:
+        res = []
+        for i, t in enumerate(get_args(ttype)):
+            res.extend(_bit_names(t, f"{base}.{i}"))
+        return res
+    return [base]
+
+
+def _decompose(ttype, vexp, base: str):
+    """Decompose a value to (name, expression) pairs; tuple values are named after
+    the structure of their type, whether their bits are given flat or nested"""
+    if len(get_args(ttype)) > 0:
+        names = _bit_names(ttype, base)
+        flat = _flatten_exp(vexp)
+        if len(names) == len(flat):
+            return list(zip(names, flat))
+    return decompose_to_symbols(vexp, base)
 
 
 def translate_statement(  # noqa: C901
@@ -56,7 +89,7 @@ def translate_statement(  # noqa: C901
         target = stmt.targets[0].id
 
         tval, val = translate_expression(stmt.value, env)  # TODO: typecheck
-        res = decompose_to_symbols(val, f"{target}")
+        res = _decompose(tval, val, f"{target}")
 
         env.bind(Binding(target, tval, [x[0] for x in res]), rebind=target in env)
         res = list(map(lambda x: (Symbol(x[0]), x[1]), res))
@@ -80,7 +113,7 @@ def translate_statement(  # noqa: C901
         elif texp != ret_type:
             raise TypeErrorException(texp, ret_type)
 
-        res = decompose_to_symbols(vexp, "_ret")
+        res = _decompose(texp, vexp, "_ret")
         env.bind(Binding("_ret", texp, [x[0] for x in res]))
         res = list(map(lambda x: (Symbol(x[0]), x[1]), res))
         return res, env
